@@ -475,6 +475,8 @@ class Gen:
             sub = r.shuffle(list(hfs))[:1 + r.below(len(hfs))]
             if r.chance(1, 3): sub = [h ^ 1 for h in sub]
             if r.chance(1, 6): sub[0] ^= 1
+            if any(h in self.st().used_halffaces() for h in sub) and self.profile != "malformed":
+                continue                                            # (a closed sub-surface accepted earlier: stay inside the contract)
             self.do("@AddC 1 " + " ".join(map(str, sub)))          # open (or wrongly oriented) surfaces must be rejected
         if len(hfs) >= 4 and not any(h in self.st().used_halffaces() for h in hfs):
             self.do("@AddC 1 " + " ".join(map(str, r.shuffle(list(hfs)))))
